@@ -1,177 +1,305 @@
 /-
-C04 proofs — structural invariants (srcCan, skipCan, walkG, syncG, wonCan): preservation by `exec` and `begin`.
+C04 proofs — structural invariants (snapLe, copyTrue, wstLe, pstLe, skipLe): preservation by `exec` and `begin`.
 -/
 import TbbVerif.Proofs.C04.ReachA
 
 namespace TbbVerif.C04
-variable {cfg : Cfg} {reg : List Nat} {s : St} {t : Nat}
+variable {cfg : Cfg} {r : List RF} {reg : List Nat} {s : St} {t : Nat}
 
-theorem srcCan_exec (hS : Struct reg s) (hO : Orig s) (hR : Reach reg s) :
-    ∀ n, 1 ≤ n → n ≤ (exec C reg s t).G → (exec C reg s t).can ((exec C reg s t).srcOf n) = true := by
-  have g0 := hR.srcCan
-  have g1 := hR.noResetPc
-  have g1t := hR.noResetPc t
-  have g2 := hR.copyTrue
-  have g2t := hR.copyTrue t
-  have g3 := hR.wonCan
-  have g3t := hR.wonCan t
-  exec_cases_C
-  all_goals (try rw [‹s.pc t = _›] at g1t)
-  all_goals (try simp [Pc.copyVal, Pc.wonSrc] at g1t)
-  all_goals (try rw [‹s.pc t = _›] at g2t)
-  all_goals (try simp [Pc.copyVal, Pc.wonSrc] at g2t)
-  all_goals (try rw [‹s.pc t = _›] at g3t)
-  all_goals (try simp [Pc.copyVal, Pc.wonSrc] at g3t)
-  all_goals (intro n h1 h2; try simp [C, upd_apply, afterLists, nextList] at h1 h2 ⊢)
-  all_goals grind [Pc.copyVal, Pc.wonSrc]
-
-theorem srcCan_begin (hS : Struct reg s) (hO : Orig s) (hR : Reach reg s) (hi : s.pc t = .idle) :
-    ∀ n, 1 ≤ n → n ≤ (begin reg s t).G → (begin reg s t).can ((begin reg s t).srcOf n) = true := by
-  have g0 := hR.srcCan
-  have g1 := hR.noResetPc
-  have g1t := hR.noResetPc t
-  have g2 := hR.copyTrue
-  have g2t := hR.copyTrue t
-  have g3 := hR.wonCan
-  have g3t := hR.wonCan t
-  begin_cases
-  all_goals (try rw [hi] at g1t)
-  all_goals (try simp [Pc.copyVal, Pc.wonSrc] at g1t)
-  all_goals (try rw [hi] at g2t)
-  all_goals (try simp [Pc.copyVal, Pc.wonSrc] at g2t)
-  all_goals (try rw [hi] at g3t)
-  all_goals (try simp [Pc.copyVal, Pc.wonSrc] at g3t)
-  all_goals (intro n h1 h2; try simp [C, upd_apply, afterLists, nextList] at h1 h2 ⊢)
-  all_goals grind [Pc.copyVal, Pc.wonSrc]
-
-theorem skipCan_exec (hS : Struct reg s) (hO : Orig s) (hR : Reach reg s) :
-    ∀ x, (exec C reg s t).skip x = true → (exec C reg s t).can x = true := by
-  have g0 := hR.skipCan
-  have g1 := hR.noResetPc
-  have g1t := hR.noResetPc t
-  have g2 := hR.copyTrue
-  have g2t := hR.copyTrue t
-  have g3 := hR.wonCan
-  have g3t := hR.wonCan t
-  exec_cases_C
-  all_goals (try rw [‹s.pc t = _›] at g1t)
-  all_goals (try simp [Pc.copyVal, Pc.wonSrc] at g1t)
-  all_goals (try rw [‹s.pc t = _›] at g2t)
-  all_goals (try simp [Pc.copyVal, Pc.wonSrc] at g2t)
-  all_goals (try rw [‹s.pc t = _›] at g3t)
-  all_goals (try simp [Pc.copyVal, Pc.wonSrc] at g3t)
-  all_goals (intro x h1; try simp [C, upd_apply, afterLists, nextList] at h1 ⊢)
-  all_goals grind [Pc.copyVal, Pc.wonSrc]
-
-theorem skipCan_begin (hS : Struct reg s) (hO : Orig s) (hR : Reach reg s) (hi : s.pc t = .idle) :
-    ∀ x, (begin reg s t).skip x = true → (begin reg s t).can x = true := by
-  have g0 := hR.skipCan
-  have g1 := hR.noResetPc
-  have g1t := hR.noResetPc t
-  have g2 := hR.copyTrue
-  have g2t := hR.copyTrue t
-  have g3 := hR.wonCan
-  have g3t := hR.wonCan t
-  begin_cases
-  all_goals (try rw [hi] at g1t)
-  all_goals (try simp [Pc.copyVal, Pc.wonSrc] at g1t)
-  all_goals (try rw [hi] at g2t)
-  all_goals (try simp [Pc.copyVal, Pc.wonSrc] at g2t)
-  all_goals (try rw [hi] at g3t)
-  all_goals (try simp [Pc.copyVal, Pc.wonSrc] at g3t)
-  all_goals (intro x h1; try simp [C, upd_apply, afterLists, nextList] at h1 ⊢)
-  all_goals grind [Pc.copyVal, Pc.wonSrc]
-
-theorem walkG_exec (hS : Struct reg s) (hO : Orig s) (hR : Reach reg s) :
-    ∀ t' a, ((exec C reg s t).pc t').walkSrc = some a → (exec C reg s t).srcOf (exec C reg s t).G = a ∧ 1 ≤ (exec C reg s t).G := by
-  have g0 := hR.walkG
-  have g0t := hR.walkG t
-  have g1 := hS.regMx
-  have g1t := hS.regMx t
-  exec_cases_C
+theorem snapLe_exec_c (hS : Struct reg s) (hO : Orig s) (hH : Hint s) (hR : Reach reg s) :
+    ∀ t' n, ((execCancel (C r) reg s t).pc t').snapVal = some n → n ≤ (execCancel (C r) reg s t).G := by
+  have g0 := hR.snapLe
+  have g0t := hR.snapLe t
+  have g1 := hR.epochLe
+  unfold execCancel
+  try unfold walkNext
+  try unfold afterHint
+  try unfold applyReset
+  try simp only [C_propHolds, C_copyNeverClears, afterLists, ↓reduceIte, Bool.true_and]
+  repeat' split
   all_goals (try rw [‹s.pc t = _›] at g0t)
-  all_goals (try simp [Pc.walkSrc, Pc.inReg, Pc.walkSrc_inReg] at g0t)
-  all_goals (try rw [‹s.pc t = _›] at g1t)
-  all_goals (try simp [Pc.walkSrc, Pc.inReg, Pc.walkSrc_inReg] at g1t)
-  all_goals (intro t' a h1; by_cases ht : t' = t <;> first | (subst ht; try simp [C, upd_apply, afterLists, nextList, Pc.walkSrc, Pc.inReg, Pc.walkSrc_inReg] at h1 ⊢) | (try simp [ht, upd_apply, afterLists, nextList] at h1 ⊢))
-  all_goals grind [Pc.walkSrc, Pc.inReg, Pc.walkSrc_inReg]
+  all_goals (try simp [Pc.snapVal] at g0t)
+  all_goals (intro t' n h1; by_cases ht : t' = t <;> first | (subst ht; try simp [C, upd_apply, afterLists, nextList, Pc.snapVal] at h1 ⊢) | (try simp [ht, C, upd_apply, afterLists, nextList] at h1 ⊢))
+  all_goals grind [Pc.snapVal]
 
-theorem walkG_begin (hS : Struct reg s) (hO : Orig s) (hR : Reach reg s) (hi : s.pc t = .idle) :
-    ∀ t' a, ((begin reg s t).pc t').walkSrc = some a → (begin reg s t).srcOf (begin reg s t).G = a ∧ 1 ≤ (begin reg s t).G := by
-  have g0 := hR.walkG
-  have g0t := hR.walkG t
-  have g1 := hS.regMx
-  have g1t := hS.regMx t
+theorem snapLe_exec_b (hS : Struct reg s) (hO : Orig s) (hH : Hint s) (hR : Reach reg s) :
+    ∀ t' n, ((execBind (C r) s t).pc t').snapVal = some n → n ≤ (execBind (C r) s t).G := by
+  have g0 := hR.snapLe
+  have g0t := hR.snapLe t
+  have g1 := hR.epochLe
+  unfold execBind
+  try unfold walkNext
+  try unfold afterHint
+  try unfold applyReset
+  try simp only [C_propHolds, C_copyNeverClears, afterLists, ↓reduceIte, Bool.true_and]
+  repeat' split
+  all_goals (try rw [‹s.pc t = _›] at g0t)
+  all_goals (try simp [Pc.snapVal] at g0t)
+  all_goals (intro t' n h1; by_cases ht : t' = t <;> first | (subst ht; try simp [C, upd_apply, afterLists, nextList, Pc.snapVal] at h1 ⊢) | (try simp [ht, C, upd_apply, afterLists, nextList] at h1 ⊢))
+  all_goals grind [Pc.snapVal]
+
+theorem snapLe_exec_o (hS : Struct reg s) (hO : Orig s) (hH : Hint s) (hR : Reach reg s) :
+    ∀ t' n, ((execOther s t).pc t').snapVal = some n → n ≤ (execOther s t).G := by
+  have g0 := hR.snapLe
+  have g0t := hR.snapLe t
+  have g1 := hR.epochLe
+  unfold execOther
+  try unfold walkNext
+  try unfold afterHint
+  try unfold applyReset
+  try simp only [C_propHolds, C_copyNeverClears, afterLists, ↓reduceIte, Bool.true_and]
+  repeat' split
+  all_goals (try rw [‹s.pc t = _›] at g0t)
+  all_goals (try simp [Pc.snapVal] at g0t)
+  all_goals (intro t' n h1; by_cases ht : t' = t <;> first | (subst ht; try simp [C, upd_apply, afterLists, nextList, Pc.snapVal] at h1 ⊢) | (try simp [ht, C, upd_apply, afterLists, nextList] at h1 ⊢))
+  all_goals grind [Pc.snapVal]
+
+theorem snapLe_exec (hS : Struct reg s) (hO : Orig s) (hH : Hint s) (hR : Reach reg s) :
+    ∀ t' n, ((exec (C r) reg s t).pc t').snapVal = some n → n ≤ (exec (C r) reg s t).G := by
+  unfold exec
+  split
+  · exact snapLe_exec_c hS hO hH hR
+  · split
+    · exact snapLe_exec_b hS hO hH hR
+    · exact snapLe_exec_o hS hO hH hR
+
+theorem snapLe_begin (hS : Struct reg s) (hO : Orig s) (hH : Hint s) (hR : Reach reg s) (hi : s.pc t = .idle) :
+    ∀ t' n, ((begin (C r) reg s t).pc t').snapVal = some n → n ≤ (begin (C r) reg s t).G := by
+  have g0 := hR.snapLe
+  have g0t := hR.snapLe t
+  have g1 := hR.epochLe
   begin_cases
   all_goals (try rw [hi] at g0t)
-  all_goals (try simp [Pc.walkSrc, Pc.inReg, Pc.walkSrc_inReg] at g0t)
-  all_goals (try rw [hi] at g1t)
-  all_goals (try simp [Pc.walkSrc, Pc.inReg, Pc.walkSrc_inReg] at g1t)
-  all_goals (intro t' a h1; by_cases ht : t' = t <;> first | (subst ht; try simp [C, upd_apply, afterLists, nextList, Pc.walkSrc, Pc.inReg, Pc.walkSrc_inReg] at h1 ⊢) | (try simp [ht, upd_apply, afterLists, nextList] at h1 ⊢))
-  all_goals grind [Pc.walkSrc, Pc.inReg, Pc.walkSrc_inReg]
+  all_goals (try simp [Pc.snapVal] at g0t)
+  all_goals (intro t' n h1; by_cases ht : t' = t <;> first | (subst ht; try simp [C, upd_apply, afterLists, nextList, Pc.snapVal] at h1 ⊢) | (try simp [ht, C, upd_apply, afterLists, nextList] at h1 ⊢))
+  all_goals grind [Pc.snapVal]
 
-theorem syncG_exec (hS : Struct reg s) (hO : Orig s) (hR : Reach reg s) :
-    ∀ t' a i g, (exec C reg s t).pc t' = .cSync a i g → g = (exec C reg s t).G := by
-  have g0 := hR.syncG
-  have g0t := hR.syncG t
-  have g1 := hS.regMx
-  have g1t := hS.regMx t
-  exec_cases_C
+theorem copyTrue_exec_c (hS : Struct reg s) (hO : Orig s) (hH : Hint s) (hR : Reach reg s) :
+    ∀ t' p v, ((execCancel (C r) reg s t).pc t').copyVal = some (p, v) → v = true := by
+  have g0 := hR.copyTrue
+  have g0t := hR.copyTrue t
+  unfold execCancel
+  try unfold walkNext
+  try unfold afterHint
+  try unfold applyReset
+  try simp only [C_propHolds, C_copyNeverClears, afterLists, ↓reduceIte, Bool.true_and]
+  repeat' split
   all_goals (try rw [‹s.pc t = _›] at g0t)
-  all_goals (try simp [Pc.inReg] at g0t)
-  all_goals (try rw [‹s.pc t = _›] at g1t)
-  all_goals (try simp [Pc.inReg] at g1t)
-  all_goals (intro t' a i g h1; by_cases ht : t' = t <;> first | (subst ht; try simp [C, upd_apply, afterLists, nextList, Pc.inReg] at h1 ⊢) | (try simp [ht, upd_apply, afterLists, nextList] at h1 ⊢))
-  all_goals grind [Pc.inReg]
+  all_goals (try simp [Pc.copyVal] at g0t)
+  all_goals (intro t' p v h1; by_cases ht : t' = t <;> first | (subst ht; try simp [C, upd_apply, afterLists, nextList, Pc.copyVal] at h1 ⊢) | (try simp [ht, C, upd_apply, afterLists, nextList] at h1 ⊢))
+  all_goals grind [Pc.copyVal]
 
-theorem syncG_begin (hS : Struct reg s) (hO : Orig s) (hR : Reach reg s) (hi : s.pc t = .idle) :
-    ∀ t' a i g, (begin reg s t).pc t' = .cSync a i g → g = (begin reg s t).G := by
-  have g0 := hR.syncG
-  have g0t := hR.syncG t
-  have g1 := hS.regMx
-  have g1t := hS.regMx t
+theorem copyTrue_exec_b (hS : Struct reg s) (hO : Orig s) (hH : Hint s) (hR : Reach reg s) :
+    ∀ t' p v, ((execBind (C r) s t).pc t').copyVal = some (p, v) → v = true := by
+  have g0 := hR.copyTrue
+  have g0t := hR.copyTrue t
+  unfold execBind
+  try unfold walkNext
+  try unfold afterHint
+  try unfold applyReset
+  try simp only [C_propHolds, C_copyNeverClears, afterLists, ↓reduceIte, Bool.true_and]
+  repeat' split
+  all_goals (try rw [‹s.pc t = _›] at g0t)
+  all_goals (try simp [Pc.copyVal] at g0t)
+  all_goals (intro t' p v h1; by_cases ht : t' = t <;> first | (subst ht; try simp [C, upd_apply, afterLists, nextList, Pc.copyVal] at h1 ⊢) | (try simp [ht, C, upd_apply, afterLists, nextList] at h1 ⊢))
+  all_goals grind [Pc.copyVal]
+
+theorem copyTrue_exec_o (hS : Struct reg s) (hO : Orig s) (hH : Hint s) (hR : Reach reg s) :
+    ∀ t' p v, ((execOther s t).pc t').copyVal = some (p, v) → v = true := by
+  have g0 := hR.copyTrue
+  have g0t := hR.copyTrue t
+  unfold execOther
+  try unfold walkNext
+  try unfold afterHint
+  try unfold applyReset
+  try simp only [C_propHolds, C_copyNeverClears, afterLists, ↓reduceIte, Bool.true_and]
+  repeat' split
+  all_goals (try rw [‹s.pc t = _›] at g0t)
+  all_goals (try simp [Pc.copyVal] at g0t)
+  all_goals (intro t' p v h1; by_cases ht : t' = t <;> first | (subst ht; try simp [C, upd_apply, afterLists, nextList, Pc.copyVal] at h1 ⊢) | (try simp [ht, C, upd_apply, afterLists, nextList] at h1 ⊢))
+  all_goals grind [Pc.copyVal]
+
+theorem copyTrue_exec (hS : Struct reg s) (hO : Orig s) (hH : Hint s) (hR : Reach reg s) :
+    ∀ t' p v, ((exec (C r) reg s t).pc t').copyVal = some (p, v) → v = true := by
+  unfold exec
+  split
+  · exact copyTrue_exec_c hS hO hH hR
+  · split
+    · exact copyTrue_exec_b hS hO hH hR
+    · exact copyTrue_exec_o hS hO hH hR
+
+theorem copyTrue_begin (hS : Struct reg s) (hO : Orig s) (hH : Hint s) (hR : Reach reg s) (hi : s.pc t = .idle) :
+    ∀ t' p v, ((begin (C r) reg s t).pc t').copyVal = some (p, v) → v = true := by
+  have g0 := hR.copyTrue
+  have g0t := hR.copyTrue t
   begin_cases
   all_goals (try rw [hi] at g0t)
-  all_goals (try simp [Pc.inReg] at g0t)
-  all_goals (try rw [hi] at g1t)
-  all_goals (try simp [Pc.inReg] at g1t)
-  all_goals (intro t' a i g h1; by_cases ht : t' = t <;> first | (subst ht; try simp [C, upd_apply, afterLists, nextList, Pc.inReg] at h1 ⊢) | (try simp [ht, upd_apply, afterLists, nextList] at h1 ⊢))
-  all_goals grind [Pc.inReg]
+  all_goals (try simp [Pc.copyVal] at g0t)
+  all_goals (intro t' p v h1; by_cases ht : t' = t <;> first | (subst ht; try simp [C, upd_apply, afterLists, nextList, Pc.copyVal] at h1 ⊢) | (try simp [ht, C, upd_apply, afterLists, nextList] at h1 ⊢))
+  all_goals grind [Pc.copyVal]
 
-theorem wonCan_exec (hS : Struct reg s) (hO : Orig s) (hR : Reach reg s) :
-    ∀ t' a, ((exec C reg s t).pc t').wonSrc = some a → (exec C reg s t).can a = true := by
-  have g0 := hR.wonCan
-  have g0t := hR.wonCan t
-  have g1 := hR.noResetPc
-  have g1t := hR.noResetPc t
-  have g2 := hR.copyTrue
-  have g2t := hR.copyTrue t
-  exec_cases_C
-  all_goals (try rw [‹s.pc t = _›] at g0t)
-  all_goals (try simp [Pc.wonSrc, Pc.copyVal] at g0t)
-  all_goals (try rw [‹s.pc t = _›] at g1t)
-  all_goals (try simp [Pc.wonSrc, Pc.copyVal] at g1t)
-  all_goals (try rw [‹s.pc t = _›] at g2t)
-  all_goals (try simp [Pc.wonSrc, Pc.copyVal] at g2t)
-  all_goals (intro t' a h1; by_cases ht : t' = t <;> first | (subst ht; try simp [C, upd_apply, afterLists, nextList, Pc.wonSrc, Pc.copyVal] at h1 ⊢) | (try simp [ht, upd_apply, afterLists, nextList] at h1 ⊢))
-  all_goals grind [Pc.wonSrc, Pc.copyVal]
+theorem wstLe_exec_c (hS : Struct reg s) (hO : Orig s) (hH : Hint s) (hR : Reach reg s) :
+    ∀ a, (execCancel (C r) reg s t).wst a ≤ (execCancel (C r) reg s t).clk := by
+  have g0 := hR.wstLe
+  unfold execCancel
+  try unfold walkNext
+  try unfold afterHint
+  try unfold applyReset
+  try simp only [C_propHolds, C_copyNeverClears, afterLists, ↓reduceIte, Bool.true_and]
+  repeat' split
+  all_goals (intro a; try simp [C, upd_apply, afterLists, nextList] at  ⊢)
+  all_goals grind []
 
-theorem wonCan_begin (hS : Struct reg s) (hO : Orig s) (hR : Reach reg s) (hi : s.pc t = .idle) :
-    ∀ t' a, ((begin reg s t).pc t').wonSrc = some a → (begin reg s t).can a = true := by
-  have g0 := hR.wonCan
-  have g0t := hR.wonCan t
-  have g1 := hR.noResetPc
-  have g1t := hR.noResetPc t
-  have g2 := hR.copyTrue
-  have g2t := hR.copyTrue t
+theorem wstLe_exec_b (hS : Struct reg s) (hO : Orig s) (hH : Hint s) (hR : Reach reg s) :
+    ∀ a, (execBind (C r) s t).wst a ≤ (execBind (C r) s t).clk := by
+  have g0 := hR.wstLe
+  unfold execBind
+  try unfold walkNext
+  try unfold afterHint
+  try unfold applyReset
+  try simp only [C_propHolds, C_copyNeverClears, afterLists, ↓reduceIte, Bool.true_and]
+  repeat' split
+  all_goals (intro a; try simp [C, upd_apply, afterLists, nextList] at  ⊢)
+  all_goals grind []
+
+theorem wstLe_exec_o (hS : Struct reg s) (hO : Orig s) (hH : Hint s) (hR : Reach reg s) :
+    ∀ a, (execOther s t).wst a ≤ (execOther s t).clk := by
+  have g0 := hR.wstLe
+  unfold execOther
+  try unfold walkNext
+  try unfold afterHint
+  try unfold applyReset
+  try simp only [C_propHolds, C_copyNeverClears, afterLists, ↓reduceIte, Bool.true_and]
+  repeat' split
+  all_goals (intro a; try simp [C, upd_apply, afterLists, nextList] at  ⊢)
+  all_goals grind []
+
+theorem wstLe_exec (hS : Struct reg s) (hO : Orig s) (hH : Hint s) (hR : Reach reg s) :
+    ∀ a, (exec (C r) reg s t).wst a ≤ (exec (C r) reg s t).clk := by
+  unfold exec
+  split
+  · exact wstLe_exec_c hS hO hH hR
+  · split
+    · exact wstLe_exec_b hS hO hH hR
+    · exact wstLe_exec_o hS hO hH hR
+
+theorem wstLe_begin (hS : Struct reg s) (hO : Orig s) (hH : Hint s) (hR : Reach reg s) (hi : s.pc t = .idle) :
+    ∀ a, (begin (C r) reg s t).wst a ≤ (begin (C r) reg s t).clk := by
+  have g0 := hR.wstLe
   begin_cases
-  all_goals (try rw [hi] at g0t)
-  all_goals (try simp [Pc.wonSrc, Pc.copyVal] at g0t)
-  all_goals (try rw [hi] at g1t)
-  all_goals (try simp [Pc.wonSrc, Pc.copyVal] at g1t)
-  all_goals (try rw [hi] at g2t)
-  all_goals (try simp [Pc.wonSrc, Pc.copyVal] at g2t)
-  all_goals (intro t' a h1; by_cases ht : t' = t <;> first | (subst ht; try simp [C, upd_apply, afterLists, nextList, Pc.wonSrc, Pc.copyVal] at h1 ⊢) | (try simp [ht, upd_apply, afterLists, nextList] at h1 ⊢))
-  all_goals grind [Pc.wonSrc, Pc.copyVal]
+  all_goals (intro a; try simp [C, upd_apply, afterLists, nextList] at  ⊢)
+  all_goals grind []
+
+theorem pstLe_exec_c (hS : Struct reg s) (hO : Orig s) (hH : Hint s) (hR : Reach reg s) :
+    ∀ n, (execCancel (C r) reg s t).pst n ≤ (execCancel (C r) reg s t).clk := by
+  have g0 := hR.pstLe
+  have g1 := hR.wstLe
+  unfold execCancel
+  try unfold walkNext
+  try unfold afterHint
+  try unfold applyReset
+  try simp only [C_propHolds, C_copyNeverClears, afterLists, ↓reduceIte, Bool.true_and]
+  repeat' split
+  all_goals (intro n; try simp [C, upd_apply, afterLists, nextList] at  ⊢)
+  all_goals grind []
+
+theorem pstLe_exec_b (hS : Struct reg s) (hO : Orig s) (hH : Hint s) (hR : Reach reg s) :
+    ∀ n, (execBind (C r) s t).pst n ≤ (execBind (C r) s t).clk := by
+  have g0 := hR.pstLe
+  have g1 := hR.wstLe
+  unfold execBind
+  try unfold walkNext
+  try unfold afterHint
+  try unfold applyReset
+  try simp only [C_propHolds, C_copyNeverClears, afterLists, ↓reduceIte, Bool.true_and]
+  repeat' split
+  all_goals (intro n; try simp [C, upd_apply, afterLists, nextList] at  ⊢)
+  all_goals grind []
+
+theorem pstLe_exec_o (hS : Struct reg s) (hO : Orig s) (hH : Hint s) (hR : Reach reg s) :
+    ∀ n, (execOther s t).pst n ≤ (execOther s t).clk := by
+  have g0 := hR.pstLe
+  have g1 := hR.wstLe
+  unfold execOther
+  try unfold walkNext
+  try unfold afterHint
+  try unfold applyReset
+  try simp only [C_propHolds, C_copyNeverClears, afterLists, ↓reduceIte, Bool.true_and]
+  repeat' split
+  all_goals (intro n; try simp [C, upd_apply, afterLists, nextList] at  ⊢)
+  all_goals grind []
+
+theorem pstLe_exec (hS : Struct reg s) (hO : Orig s) (hH : Hint s) (hR : Reach reg s) :
+    ∀ n, (exec (C r) reg s t).pst n ≤ (exec (C r) reg s t).clk := by
+  unfold exec
+  split
+  · exact pstLe_exec_c hS hO hH hR
+  · split
+    · exact pstLe_exec_b hS hO hH hR
+    · exact pstLe_exec_o hS hO hH hR
+
+theorem pstLe_begin (hS : Struct reg s) (hO : Orig s) (hH : Hint s) (hR : Reach reg s) (hi : s.pc t = .idle) :
+    ∀ n, (begin (C r) reg s t).pst n ≤ (begin (C r) reg s t).clk := by
+  have g0 := hR.pstLe
+  have g1 := hR.wstLe
+  begin_cases
+  all_goals (intro n; try simp [C, upd_apply, afterLists, nextList] at  ⊢)
+  all_goals grind []
+
+theorem skipLe_exec_c (hS : Struct reg s) (hO : Orig s) (hH : Hint s) (hR : Reach reg s) :
+    ∀ a, (execCancel (C r) reg s t).skipSt a ≤ (execCancel (C r) reg s t).clk := by
+  have g0 := hR.skipLe
+  have g1 := hR.wstLe
+  unfold execCancel
+  try unfold walkNext
+  try unfold afterHint
+  try unfold applyReset
+  try simp only [C_propHolds, C_copyNeverClears, afterLists, ↓reduceIte, Bool.true_and]
+  repeat' split
+  all_goals (intro a; try simp [C, upd_apply, afterLists, nextList] at  ⊢)
+  all_goals grind []
+
+theorem skipLe_exec_b (hS : Struct reg s) (hO : Orig s) (hH : Hint s) (hR : Reach reg s) :
+    ∀ a, (execBind (C r) s t).skipSt a ≤ (execBind (C r) s t).clk := by
+  have g0 := hR.skipLe
+  have g1 := hR.wstLe
+  unfold execBind
+  try unfold walkNext
+  try unfold afterHint
+  try unfold applyReset
+  try simp only [C_propHolds, C_copyNeverClears, afterLists, ↓reduceIte, Bool.true_and]
+  repeat' split
+  all_goals (intro a; try simp [C, upd_apply, afterLists, nextList] at  ⊢)
+  all_goals grind []
+
+theorem skipLe_exec_o (hS : Struct reg s) (hO : Orig s) (hH : Hint s) (hR : Reach reg s) :
+    ∀ a, (execOther s t).skipSt a ≤ (execOther s t).clk := by
+  have g0 := hR.skipLe
+  have g1 := hR.wstLe
+  unfold execOther
+  try unfold walkNext
+  try unfold afterHint
+  try unfold applyReset
+  try simp only [C_propHolds, C_copyNeverClears, afterLists, ↓reduceIte, Bool.true_and]
+  repeat' split
+  all_goals (intro a; try simp [C, upd_apply, afterLists, nextList] at  ⊢)
+  all_goals grind []
+
+theorem skipLe_exec (hS : Struct reg s) (hO : Orig s) (hH : Hint s) (hR : Reach reg s) :
+    ∀ a, (exec (C r) reg s t).skipSt a ≤ (exec (C r) reg s t).clk := by
+  unfold exec
+  split
+  · exact skipLe_exec_c hS hO hH hR
+  · split
+    · exact skipLe_exec_b hS hO hH hR
+    · exact skipLe_exec_o hS hO hH hR
+
+theorem skipLe_begin (hS : Struct reg s) (hO : Orig s) (hH : Hint s) (hR : Reach reg s) (hi : s.pc t = .idle) :
+    ∀ a, (begin (C r) reg s t).skipSt a ≤ (begin (C r) reg s t).clk := by
+  have g0 := hR.skipLe
+  have g1 := hR.wstLe
+  begin_cases
+  all_goals (intro a; try simp [C, upd_apply, afterLists, nextList] at  ⊢)
+  all_goals grind []
 
 end TbbVerif.C04
